@@ -59,9 +59,44 @@ def strip_lean_comments(text):
     return "".join(out)
 
 
+# ---------------------------------------------------------------------------
+# source fingerprint: which of the files a property is anchored in differ from the tree the models were last
+# reconciled with (tools/pins.json, written by tools/pins.py).  A difference is NOT an obligation and never a
+# verdict — it only makes the quick tier spend more on correspondence and search (budget x3, capped by the
+# thorough budget), because a changed file is where a model can have gone stale.
+_CORE = ["core.py", "maths.py", "finitedifference.py"]
+SOURCES = {"C01": ["core.py"], "C02": _CORE + ["time.py", "reading.py", "numerical.py"], "C03": ["core.py", "time.py"],
+           "C04": _CORE, "C05": _CORE, "C06": _CORE, "C07": ["finitedifference.py"], "C08": _CORE, "C09": _CORE,
+           "C10": _CORE, "C11": ["reading.py"], "C12": ["reading.py"], "C13": ["reading.py"], "C14": ["time.py", "core.py"],
+           "C15": ["coresymbolic.py"], "C16": ["finitedifference.py"], "C17": ["solutions/*.py"], "C18": ["reading.py"],
+           "C19": _CORE, "C20": ["maths.py", "numerical.py", "core.py"]}
+
+
+def source_digests(pid=None):
+    import glob as _glob
+    import hashlib
+    pats = SOURCES.get(pid) if pid else sorted({p for v in SOURCES.values() for p in v})
+    out = {}
+    for pat in pats or []:
+        for f in sorted(_glob.glob(os.path.join(SRC, pat))):
+            out[os.path.relpath(f, SRC)] = hashlib.sha256(open(f, "rb").read()).hexdigest()
+    return out
+
+
+def changed_sources(pid):
+    try:
+        pins = json.load(open(os.path.join(VERIF, "tools", "pins.json")))
+    except Exception:  # noqa
+        return ["<no pins.json>"]
+    now = source_digests(pid)
+    return sorted(f for f in set(now) | {k for k in pins if any(k == p or (p.endswith("*.py") and k.startswith(p[:-4])) for p in SOURCES.get(pid, []))}
+                  if now.get(f) != pins.get(f))
+
+
 class Ctx:
     def __init__(self, pid, tier, seed, level="proof"):
         self.pid, self.tier, self.seed, self.level = pid, tier, seed, level
+        self.changed_sources = changed_sources(pid)
         self.rng = random.Random(seed)
         self.t0 = time.time()
         self.obligs = []          # {name, kind, ok, detail}
@@ -81,7 +116,11 @@ class Ctx:
         print("[%s %6.1fs]" % (self.pid, time.time() - self.t0), *a, flush=True)
 
     def budget(self, quick, thorough):
-        return thorough if self.tier == "thorough" else quick
+        if self.tier == "thorough":
+            return thorough
+        if self.changed_sources and isinstance(quick, (int, float)) and isinstance(thorough, (int, float)):
+            return min(thorough, 3 * quick) if thorough >= quick else quick
+        return quick
 
     def sample(self, s):
         if len(self.samples) < 12:
@@ -315,6 +354,9 @@ class Ctx:
             "notes": self.notes,
         }
         cov.update(self.cov)
+        cov["source_fingerprint"] = {"files": sorted(source_digests(self.pid)),
+                                     "changed_since_models_were_reconciled": self.changed_sources,
+                                     "effect": "quick budgets x3 (capped by thorough)" if self.changed_sources else "none"}
         ev = {"property_id": self.pid, "tier": self.tier, "seed": self.seed, "level": self.level,
               "coverage": cov, "assumptions": self.assumptions,
               "wall_s": round(time.time() - self.t0, 2), "violations": len(self.violations)}
